@@ -17,6 +17,13 @@ def load_units():
     return us
 
 
+def has_findings(u, pid=None):
+    for fs in u.fns:
+        for c in fs.requires + fs.ensures + [c for l in fs.loops for c in l.invariants + l.ensures + l.except_break] + getattr(fs, 'tagged_proofs', []):
+            if c.finding and (pid is None or pid in c.props()): return True
+    return False
+
+
 def unit_props(u):
     ps = set()
     for fs in u.fns:
@@ -36,7 +43,7 @@ class UnitRun:
     pass
 
 
-def run_unit(u, tier):
+def run_unit(u, tier, pid=None):
     """Build + verify one unit (and its reachability twin). Returns UnitRun."""
     ur = UnitRun(); ur.unit = u; ur.error = None; ur.twin_missing = []
     os.makedirs(BUILD, exist_ok=True)
@@ -72,6 +79,28 @@ def run_unit(u, tier):
     if (not rt.have_results or tunsup) and not ur.error:
         ur.error = 'reachability twin could not be checked: ' + (tunsup[0].rendered[:400] if tunsup else rt.raw_err[:400])
     ur.twin_cmd = rt.cmd
+    # findings variant: the same unit plus the clauses that record known defects (expected to fail; nothing depends on them);
+    # only the functions carrying such clauses are verified there
+    ur.finding_results = {}
+    if has_findings(U.parse_vc(u.path), pid) and not ur.error:
+        try:
+            fresh = U.parse_vc(u.path)
+            fg = U.build(fresh, BUILD, findings=True)
+            outf = os.path.join(BUILD, u.name + '_findings.rs'); open(outf, 'w').write(fg.text)
+            fns = sorted({c.fn for c in fg.clauses if c.finding and (pid is None or pid in c.props())})
+            def one(fn):
+                mod = U._owner_module(fn, fresh); rel = fn[len(mod) + 2:]
+                return fn, V.run(outf, extra=['--verify-only-module', mod, '--verify-function', rel])
+            with ThreadPoolExecutor(max_workers=4) as ex:
+                runs_f = dict(ex.map(one, fns))
+            for c in fg.clauses:
+                if not c.finding or c.fn not in runs_f: continue
+                rf = runs_f[c.fn]
+                fver, funs = V.classify(rf.diags, fg)
+                failed = {d.clause.id: d for d in fver if d.clause is not None}
+                ur.finding_results[(c.fn, c.tag, c.finding)] = {'clause': c, 'failed': c.id in failed, 'diag': failed[c.id].rendered[:2500] if c.id in failed else '', 'ok_run': rf.have_results and not funs}
+        except Unsupported as e:
+            ur.finding_results = {'error': str(e)}
     ur.seeds = []
     if tier == 'thorough' and not ur.error:
         # stability: two more solver seeds and half the resource limit
@@ -129,6 +158,18 @@ def decide(pid, runs, known):
             else:
                 ob['status'] = 'discharged'
             obligations.append(ob)
+        fr = getattr(ur, 'finding_results', {})
+        if isinstance(fr, dict) and 'error' not in fr:
+            for (fn_, tag_, fid_), info in fr.items():
+                c = info['clause']
+                if pid not in c.props(): continue
+                tags = [t for t in c.tag.split(',') if t.split('.')[0] == pid]
+                ob = {'id': tags[0], 'tags': tags, 'unit': u.name, 'function': c.fn, 'kind': c.kind + ' (findings variant)', 'clause': c.text, 'backend': 'Verus-Z3',
+                      'src': f'contracts/{u.name}.vc:{c.src_line}', 'finding_id': fid_}
+                if not info['ok_run']: ob['status'] = 'undecided'; ob['why'] = 'findings variant did not verify cleanly'
+                elif info['failed']: ob['status'] = 'failed'; ob['diagnostic'] = info['diag']; ob['failed_in'] = c.fn
+                else: ob['status'] = 'discharged'
+                obligations.append(ob)
         if pid == 'C15' and serves_c15:
             # implicit safety obligations: one per function of the unit, discharged unless a safety diagnostic hits it
             fns = sorted({n for n, a, b in ur.gen.fn_ranges if not n.startswith('verif_') and _in_extracted(n, ur.gen)})
@@ -164,15 +205,37 @@ def decide(pid, runs, known):
     # known findings
     for ob in obligations:
         if ob['status'] != 'failed': continue
-        kf = [k for k in known if k.get('status', 'open') == 'open' and k['property'] == pid and k['obligation'] in ob['tags'] + [ob['id']] and (k.get('function') in (None, ob['function'], ob.get('failed_in')))]
-        if kf:
+        kf = [k for k in known if k.get('status', 'open') == 'open' and k['property'] == pid and k['obligation'] in ob['tags'] + [ob['id']] and (k.get('function') in (None, ob['function'], ob.get('failed_in')))
+              and (ob.get('finding_id') in (None, k['id']))]
+        if kf and witness_reproduces(kf[0]):
             ob['status'] = 'known-finding'; ob['finding'] = kf[0]['id']
             known_seen.append((kf[0], ob))
         else:
+            if kf: ob['why'] = 'listed finding ' + kf[0]['id'] + ' but its recorded witness no longer reproduces: this is a different violation'
             violations.append(ob)
     for ob in obligations:
         if ob['status'] == 'undecided': undecided.append(ob)
     return {'obligations': obligations, 'violations': violations, 'undecided': undecided, 'known_seen': known_seen}
+
+
+def witness_reproduces(k):
+    """Run the recorded witness of a known finding against the real code (native replay binary)."""
+    wc = k.get('witness_check')
+    if not wc: return True
+    from . import kani as K
+    try:
+        K.extract(); K._prepare()
+    except Unsupported:
+        return False
+    env = dict(os.environ, CARGO_NET_OFFLINE='true')
+    b = subprocess.run(['cargo', 'build', '--offline', '--bin', 'cgt-verif-replay'], cwd=K.KDIR, capture_output=True, text=True, env=env, timeout=1800)
+    if b.returncode != 0: return False
+    exe = os.path.join(ROOT, 'build', 'kani-target', 'debug', 'cgt-verif-replay')
+    wf = os.path.join(BUILD, 'witness-' + k['id'] + '.cgt'); open(wf, 'w').write(k['witness'])
+    r = subprocess.run([exe, '--ledger', wf], capture_output=True, text=True, timeout=120)
+    out = r.stdout + r.stderr
+    k['_witness_output'] = out[-600:]
+    return wc['expect'] in out
 
 
 def _short(fn):
@@ -194,7 +257,7 @@ def trusted_scan(gen_text):
 def write_evidence(pid, tier, seed, runs, dec, wall, kani=None):
     os.makedirs(EVID, exist_ok=True)
     obs = dec['obligations']
-    n = len(obs); disch = sum(1 for o in obs if o['status'] == 'discharged')
+    n = sum(1 for o in obs if o['status'] != 'known-finding'); disch = sum(1 for o in obs if o['status'] == 'discharged')
     trusted = []
     fns = []
     hunks = {}
@@ -224,7 +287,7 @@ def write_evidence(pid, tier, seed, runs, dec, wall, kani=None):
             'rewrite_hunks': hunks,
             'per_obligation': [{k: o.get(k) for k in ('id', 'tags', 'unit', 'function', 'kind', 'backend', 'status', 'why', 'finding', 'src') if o.get(k) is not None} for o in obs],
             'undischarged': [o['id'] + ' @ ' + o['function'] for o in obs if o['status'] != 'discharged'],
-            'known_findings_seen': [k['id'] for k, _ in dec['known_seen']],
+            'known_findings_seen': [{'id': k['id'], 'obligation': o['id'], 'function': o['function'], 'witness_reproduced_output': k.get('_witness_output', '')} for k, o in dec['known_seen']],
             'reachability_twins': twins,
             'samples': [{'id': o['id'], 'function': o['function'], 'clause': o['clause']} for o in obs[:6]],
             'solver_time_s': round(solver_s, 2),
@@ -271,7 +334,7 @@ def check(pid, tier, seed):
         print(f'no checks serve {pid}'); return 2
     known = load_known()
     with ThreadPoolExecutor(max_workers=8) as ex:
-        futs = [ex.submit(run_unit, u, tier) for u in units]
+        futs = [ex.submit(run_unit, u, tier, pid) for u in units]
         kf = [ex.submit(K.run_unit, k, tier) for k in kunits]
         runs = [f.result() for f in futs]
         kruns = [f.result() for f in kf]
@@ -335,7 +398,7 @@ def replay(pid, path):
         return rc
     # Verus: re-run the unit and report whether the named obligation still fails
     units = [u for u in load_units() if u.name == j['unit']]
-    ur = run_unit(units[0], 'quick')
+    ur = run_unit(units[0], 'quick', pid)
     dec = decide(pid, [ur], [])
     for ob in dec['obligations']:
         if ob['id'] == j['obligation'] and ob['function'] == j['function'] and ob['clause'] == j['clause']:
